@@ -83,3 +83,33 @@ Example header_forms :
   extract_range sp [44;32;120;32;58;32;120;115] = ([], [120], [120;115]) /\
   extract_range sp [95;44;32;120;32;58;32;120;115] = ([95], [120], [120;115]).
 Proof. vm_compute. repeat split; reflexivity. Qed.
+
+(* ---- END TO END, from SOURCE TEXT to OUTPUT TEXT (Proofs/EndToEndDirectives.v, session 3): the source and the Unicode
+   tables are concrete (the ASCII tables bx_ of ReadbackExample, the default lists read from the Go source), the DATA is
+   universally quantified.  The source  <ul><li :range=Q i, x : xs Q :text=Q${x}Q>y</li> </ul>  loads, and for EVERY list of
+   strings bound to xs it renders one <li> per item, in order, each holding the escaped item, joined by the blank that
+   follows the element (that blank is also an ordinary text node of the parent and is printed once after the last item:
+   with no items the output is <ul> </ul>); the index variable counts from 1; a value that is not a collection is an error,
+   never ROk. *)
+From Coq Require Import List NArith ZArith Bool Lia Arith String Ascii.
+From Tpl Require Import Html.Exec Html.Manager Gen.Facts Proofs.ExecSpec Proofs.RenderPlain Proofs.RangeProps Proofs.FuelMono
+  Proofs.ReadbackExample Proofs.EndToEnd.
+Import ListNotations.
+Open Scope N_scope.
+From Tpl Require Import Proofs.EndToEndDirectives.
+Theorem e2e_range_source_to_output : loads_and src_range (fun tp =>
+  forall (ss : list str) (t : tbl) (st : rst) (fuel : nat), r_budget st = None -> (4 <= fuel)%nat ->
+  bx_execute bx_mgr fuel tp (VMap [(s2l "xs", VSeq false (map VStr ss) [])]) t st =
+  (s2l "<ul>" ++ join (s2l " ") (map (fun s => s2l "<li>" ++ escape s ++ s2l "</li>") ss) ++ s2l " </ul>", ROk, t, st)).
+Proof. exact EndToEndDirectives.range_source_to_output. Qed.
+Theorem e2e_index_source_to_output : loads_and src_index (fun tp =>
+  forall (l : list value) (t : tbl) (st : rst) (fuel : nat), r_budget st = None -> (4 <= fuel)%nat ->
+  bx_execute bx_mgr fuel tp (VMap [(s2l "xs", VSeq false l [])]) t st =
+  (s2l "<ul>" ++ join (s2l " ") (map (fun k => s2l "<li>" ++ str_of_Z (Z.of_nat k) ++ s2l "</li>") (seq 1 (length l)))
+     ++ s2l " </ul>", ROk, t, st)).
+Proof. exact EndToEndDirectives.index_source_to_output. Qed.
+Theorem e2e_range_non_collection_never_ok : forall v t st fuel out r t' st',
+  non_collection v -> r_budget st = None -> (3 <= fuel)%nat ->
+  bx_execute bx_mgr fuel (tp_of root_range) (VMap [(s_xs, v)]) t st = (out, r, t', st') -> r <> ROk /\ out = ul_open.
+Proof. exact EndToEndDirectives.range_non_collection_never_ok. Qed.
+Print Assumptions e2e_range_source_to_output.
